@@ -22,7 +22,8 @@ def items_model(rng, n, kspec, named=False, lang="yaql", retry=None):
     if retry is not None:
         t.retry = dict(count=retry, lang=lang)
     t.trans.append(defs.Tr(0, cond=("succeeded",), lang=lang, pubs=[("r", ("res",))], do=["done"]))
-    t.trans.append(defs.Tr(1, cond=("failed",), lang=lang, pubs=[("r", ("res",))], do=["noop"]))
+    if rng.random() < 0.5:  # otherwise an item failure is an unhandled task failure (needed for reruns)
+        t.trans.append(defs.Tr(1, cond=("failed",), lang=lang, pubs=[("r", ("res",))], do=["noop"]))
     m.tasks["t"] = t
     d = defs.Task("done")
     m.tasks["done"] = d
@@ -119,6 +120,51 @@ def items_sweep(job):
                 run.request(req)
                 cnt("insertion_points")
                 explore.run_free(run, explore.Policy(pseed=h64(seed, "b"), lazy_pct=30), start=False)
+                run.finish()
+                out["evaluations"] += 1
+                workloads.collect(out, job, run, m, (seed, k), nontriv_fn)
+        # (d) cancel after which the in-flight actions themselves report canceling and then canceled (what a
+        #     provider does when it cancels the actions), in every order for small windows
+        for pos in range(1, len(script) + 1):
+            k += 1
+            if only and k != only[1]:
+                continue
+            if not only and h64(seed, pos, "cc") % 2:
+                continue
+            run = factory()
+            explore.play_script(run, script[:pos])
+            if not run.inflight:
+                continue
+            run.request("canceling")
+            order = list(range(len(run.inflight)))
+            random.Random(h64(seed, pos, "o")).shuffle(order)
+            for i in order:
+                run.report_status(i, "canceling")
+            while run.inflight:
+                j = h64(seed, pos, len(run.inflight)) % len(run.inflight)
+                run.complete(j, status="canceled", result=None)
+                run.poll()
+            cnt("cancel_reports")
+            if run.status() in ("canceled", "failed", "succeeded"):
+                run.render()
+            run.finish()
+            out["evaluations"] += 1
+            workloads.collect(out, job, run, m, (seed, k), nontriv_fn)
+        # (e) rerun of the failed task: default / explicit, with and without reset_items
+        if any(s == "failed" for s in vec):
+            for variant in (None, [("t", 0, False)], [("t", 0, True)]):
+                k += 1
+                if only and k != only[1]:
+                    continue
+                run = factory()
+                explore.run_free(run, explore.Policy(pseed=h64(seed, "r"), lazy_pct=30))
+                if run.status() != "failed" or run.inflight:
+                    continue
+                ev = run.rerun(variant)
+                if ev["exc"] is None:
+                    cnt("reruns")
+                    run.outcomes.force = lambda a: ("succeeded", None)
+                    explore.run_free(run, explore.Policy(pseed=h64(seed, "r"), lazy_pct=30), start=False)
                 run.finish()
                 out["evaluations"] += 1
                 workloads.collect(out, job, run, m, (seed, k), nontriv_fn)
